@@ -165,6 +165,7 @@ macro_rules! rto_instance {
         #[kani::unwind(6)]
         fn $name() {
             rto_step($c, $two);
+            kani::cover!(true, "end of harness reachable (assumptions satisfiable, no unconditional failure)");
         }
         }
     };
@@ -223,6 +224,7 @@ fn vs_send_nothing_in_rto_mode() {
     let sc = verif_send_counts(&t.vsock.user_tx_segments);
     assert!(sc[0] == 1 && sc[1] == 0, "C05: no segment is (re)transmitted in RTO mode before the timer fires again");
     finish(t);
+    kani::cover!(true, "end of harness reachable (assumptions satisfiable, no unconditional failure)");
 }
 }
 
@@ -265,5 +267,6 @@ fn vs_send_rto_retransmits_fin() {
         assert!(sent_n() == 0 && t.vsock.timers.retransmit == Timer::Idle, "C06: with nothing outstanding an expired timer is switched off");
     }
     finish(t);
+    kani::cover!(true, "end of harness reachable (assumptions satisfiable, no unconditional failure)");
 }
 }
